@@ -138,13 +138,30 @@ Inductive sval :=
 | SEsc               (** string with escapes: borrowing fails, an owned [String] succeeds *)
 | SOther.            (** number, bool, null, array, object *)
 
+(** a JSON value at a place where the visitor asks for an object.  When serde_json refuses a
+    value with "invalid type ... expected ROCFL" the visitor records its own error and goes on;
+    a scalar has been consumed by then, but of an array only nothing: the next [next_key] then
+    meets '[' and fails with a syntax error, which ends the parse (E033 added by parse(), serde.rs:52-60) *)
+Inductive cval :=
+| CObj               (** an object whose content records no error *)
+| CScalar            (** number, string, bool, null *)
+| CSeq.              (** array *)
+
+(** the value of one version key *)
+Inductive body :=
+| BSome              (** an object giving Some(version) *)
+| BNone              (** an object or scalar for which an error is recorded and no version results *)
+| BSeq.              (** a non-empty array: E047 recorded, then the syntax error described above
+                         (deserialize_struct consumes an empty array completely: that is BNone) *)
+
+Inductive vval := VObj (l : list (bytes * body)) | VScalar | VSeq.
+
 (** one key/value of the top-level object, in document order *)
 Inductive item :=
 | IId (v : sval) | IType (v : sval) | IAlg (v : sval) | IHead (v : sval) | ICdir (v : sval)
-| IManifest (is_obj : bool)                     (** true: an object whose content records no error *)
-| IVersions (v : option (list (bytes * bool)))  (** None: not an object; else (key, body gives Some(version));
-                                                    a body that gives None has recorded an error *)
-| IFixity (ok : bool)
+| IManifest (v : cval)
+| IVersions (v : vval)
+| IFixity (v : cval)
 | IUnknown.
 
 Record pst := mkP {
@@ -170,27 +187,29 @@ Definition cdir_kind (s : bytes) : option ecode :=
   if bytes_eqb s (b ".") || bytes_eqb s (b "..") then Some E018
   else if contains_slash s then Some E017 else None.
 
-(** VersionsVisitor::visit_map, serde.rs:547-602: nums, map keys, errors *)
-Fixpoint versions_fold (l : list (bytes * bool)) (nums keys : list vnum) (e : errs)
-  : list vnum * list vnum * errs :=
+(** VersionsVisitor::visit_map, serde.rs:547-602: nums, map keys, errors, aborted by a syntax error *)
+Fixpoint versions_fold (l : list (bytes * body)) (nums keys : list vnum) (e : errs)
+  : list vnum * list vnum * errs * bool :=
   match l with
-  | [] => (nums, keys, e)
-  | (k, body) :: rest =>
-      match vparse k with
-      | Ok num =>
-          if body then versions_fold rest (vset_insert num nums) (vset_insert num keys) e
-          else versions_fold rest (vset_insert num nums) keys (e ++ [(EBody, 1)])
-      | _ =>
-          versions_fold rest nums keys
-            (if body then e ++ [(E104, 1)] else e ++ [(E104, 1); (EBody, 1)])
+  | [] => (nums, keys, e, false)
+  | (k, bd) :: rest =>
+      let pk := vparse k in
+      let nums' := match pk with Ok num => vset_insert num nums | _ => nums end in
+      let e1 := match pk with Ok _ => e | _ => e ++ [(E104, 1)] end in
+      match bd with
+      | BSome => versions_fold rest nums' (match pk with Ok num => vset_insert num keys | _ => keys end) e1
+      | BNone => versions_fold rest nums' keys (e1 ++ [(EBody, 1)])
+      | BSeq => (nums', keys, e1 ++ [(EBody, 1); (E033, 1)], true)
       end
   end.
 
-Definition versions_value (l : list (bytes * bool)) : list vnum * list vnum * errs :=
-  let '(nums, keys, e) := versions_fold l [] [] [] in
-  let e1 := e ++ [(E010, vnums_cost (map vn_number nums))] in          (* validate_version_nums *)
-  let e2 := if fst (vnums_padding nums) then e1 ++ [(E013, 1)] else e1 in
-  (nums, keys, e2).
+Definition versions_value (l : list (bytes * body)) : list vnum * list vnum * errs * bool :=
+  let '(nums, keys, e, aborted) := versions_fold l [] [] [] in
+  if aborted then (nums, keys, e, true)
+  else
+    let e1 := e ++ [(E010, vnums_cost (map vn_number nums))] in          (* validate_version_nums *)
+    let e2 := if fst (vnums_padding nums) then e1 ++ [(E013, 1)] else e1 in
+    (nums, keys, e2, false).
 
 Definition set_errs (st : pst) (e : errs) : pst :=
   mkP (p_id st) (p_type st) (p_alg st) (p_head st) (p_cdir st) (p_manifest st) (p_versions st) (p_fixity st)
@@ -261,34 +280,40 @@ Definition step (st : pst) (it : item) : pst + errs :=
                end
            | _ => inr (p_errs (add E033 st))
            end
-  | IManifest is_obj =>
+  | IManifest v =>
       if p_manifest st then inl (add E033 st)
-      else if is_obj
-           then inl (mkP (p_id st) (p_type st) (p_alg st) (p_head st) (p_cdir st) true
-                         (p_versions st) (p_fixity st) (f_digest st) (f_head st) (f_manifest st)
-                         (f_versions st) (p_errs st))
-           else inl (mkP (p_id st) (p_type st) (p_alg st) (p_head st) (p_cdir st) false
-                         (p_versions st) (p_fixity st) (f_digest st) (f_head st) true
-                         (f_versions st) (p_errs st ++ [(E106, 1)]))
+      else match v with
+           | CObj => inl (mkP (p_id st) (p_type st) (p_alg st) (p_head st) (p_cdir st) true
+                              (p_versions st) (p_fixity st) (f_digest st) (f_head st) (f_manifest st)
+                              (f_versions st) (p_errs st))
+           | CScalar => inl (mkP (p_id st) (p_type st) (p_alg st) (p_head st) (p_cdir st) false
+                                 (p_versions st) (p_fixity st) (f_digest st) (f_head st) true
+                                 (f_versions st) (p_errs st ++ [(E106, 1)]))
+           | CSeq => inr (p_errs st ++ [(E106, 1); (E033, 1)])
+           end
   | IVersions v =>
       if p_versions st then inl (add E033 st)
       else match v with
-           | Some l =>
-               let '(nums, keys, e) := versions_value l in
-               inl (mkP (p_id st) (p_type st) (p_alg st) (p_head st) (p_cdir st) (p_manifest st)
-                        (Some (nums, keys)) (p_fixity st) (f_digest st) (f_head st) (f_manifest st)
-                        (f_versions st) (p_errs st ++ e))
-           | None => inl (mkP (p_id st) (p_type st) (p_alg st) (p_head st) (p_cdir st) (p_manifest st)
-                              None (p_fixity st) (f_digest st) (f_head st) (f_manifest st)
-                              true (p_errs st ++ [(E044, 1)]))
+           | VObj l =>
+               let '(nums, keys, e, aborted) := versions_value l in
+               if aborted then inr (p_errs st ++ e)
+               else inl (mkP (p_id st) (p_type st) (p_alg st) (p_head st) (p_cdir st) (p_manifest st)
+                             (Some (nums, keys)) (p_fixity st) (f_digest st) (f_head st) (f_manifest st)
+                             (f_versions st) (p_errs st ++ e))
+           | VScalar => inl (mkP (p_id st) (p_type st) (p_alg st) (p_head st) (p_cdir st) (p_manifest st)
+                                 None (p_fixity st) (f_digest st) (f_head st) (f_manifest st)
+                                 true (p_errs st ++ [(E044, 1)]))
+           | VSeq => inr (p_errs st ++ [(E044, 1); (E033, 1)])
            end
-  | IFixity ok =>
+  | IFixity v =>
       if p_fixity st then inl (add E033 st)
-      else if ok
-           then inl (mkP (p_id st) (p_type st) (p_alg st) (p_head st) (p_cdir st) (p_manifest st)
-                         (p_versions st) true (f_digest st) (f_head st) (f_manifest st)
-                         (f_versions st) (p_errs st))
-           else inl (add E111 st)
+      else match v with
+           | CObj => inl (mkP (p_id st) (p_type st) (p_alg st) (p_head st) (p_cdir st) (p_manifest st)
+                              (p_versions st) true (f_digest st) (f_head st) (f_manifest st)
+                              (f_versions st) (p_errs st))
+           | CScalar => inl (add E111 st)
+           | CSeq => inr (p_errs st ++ [(E111, 1); (E033, 1)])
+           end
   | IUnknown => inl (add E102 st)                                       (* unknown_field *)
   end.
 
@@ -582,3 +607,24 @@ Definition ssize (s : list (list tree)) : nat := fold_right (fun l n => (S (lsiz
     ("Formatting argument out of range") *)
 Definition FMT_WIDTH_MAX : N := 65535.
 Definition vdisplay_panics (v : vnum) : bool := FMT_WIDTH_MAX <? vn_width v.
+
+(* ------------------------------------------------------------------ *)
+(** * 8. URI::try_from of uriparse 0.6.4 (third-party), called for "id" (serde.rs:173) and user "address" (serde.rs:1193) *)
+
+(** uri.rs:913-916 [URIReference::try_from(value).map_err(|e| URIError::try_from(e).unwrap())]: the
+    conversion has no image for SchemelessPathStartsWithColonSegment (uri.rs:1535-1552), raised by
+    validate_schemeless_path (uri_reference.rs:1764-1782) when there is no scheme, no authority and
+    the first path segment contains ':'.  Approximation from above: the characters of the path are
+    not checked (an invalid path character gives a Path error first, which is converted). *)
+Definition is_alpha (c : ascii) : bool :=
+  ((65 <=? code c) && (code c <=? 90)) || ((97 <=? code c) && (code c <=? 122)).
+Definition scheme_char (c : ascii) : bool :=
+  is_alpha c || is_digit c || Ascii.eqb c "+"%char || Ascii.eqb c "-"%char || Ascii.eqb c "."%char.
+Definition scheme_ok (p : bytes) : bool :=
+  match p with [] => false | c :: _ => is_alpha c && forallb scheme_char p end.
+Fixpoint take_until (f : ascii -> bool) (s : bytes) : bytes :=
+  match s with [] => [] | c :: r => if f c then [] else c :: take_until f r end.
+Definition uri_try_from_panics (s : bytes) : bool :=
+  let seg := take_until (fun c => Ascii.eqb c "/"%char || Ascii.eqb c "?"%char || Ascii.eqb c "#"%char) s in
+  existsb (fun c => Ascii.eqb c ":"%char) seg
+  && negb (scheme_ok (take_until (fun c => Ascii.eqb c ":"%char) s)).
